@@ -281,6 +281,13 @@ func Monitors(h History, tr *Trace) []Failure {
 			}
 			break
 		}
+		// ---- C01: senders that cannot sign (module accounts, x/staking's own authority) are not the admin either ----
+		for _, pr := range bt.Probes {
+			f := strings.SplitN(pr, ":", 3)
+			if len(f) == 3 && f[2] != "err 0 3" {
+				add("C01", "C01/module-account-sender-not-refused-as-not-an-authority:"+f[0]+":"+f[1], ht, "outcome %s", f[2])
+			}
+		}
 		s := bt.After
 		ops := successfulOps(bt)
 		for _, op := range ops {
@@ -557,6 +564,11 @@ func Monitors(h History, tr *Trace) []Failure {
 						sig = "C05/repeat-target-delta-measured-against-previous-block"
 					}
 					add("C05", sig, ht, "tx %d: total %d, running sum %d (code notion %d), outcome %s", i, T, tA, tAcode, out)
+					if sig == "C05/accepted-over-limit" && out == "pass" {
+						// the request that had to be refused ran to the end and its writes were committed with the block:
+						// the block's state is not the state it would have had without that transaction
+						add("C06", "C06/refused-operation-committed", ht, "tx %d over the limit reported success", i)
+					}
 				}
 			}
 			if s.Abs != 0 && false {
